@@ -225,10 +225,6 @@ class SamplingMonitor(Monitor):
         seed = op.get("seed")
         if exc == "TypeError" and not (seed is None or isinstance(seed, int)):
             return []                      # seed type outside random.seed's
-        if msg.startswith(("Probability distribution significantly deviated",
-                           "Non photon number resolving",
-                           "sample_N_outputs not compatible")):
-            return []
         try:
             own = {tuple(st): float(p) for st, p in
                    s.probability_distribution.items()}
@@ -236,9 +232,15 @@ class SamplingMonitor(Monitor):
             return []                      # the configuration itself is invalid
         det = s.detector
         eta, p_dark, pnr = det.efficiency, det.p_dark, det.photon_counting
+        # the documented refusals, recognised by their condition (not by the
+        # wording of the message)
         if k == "sample_n_outputs" and (eta != 1 or p_dark != 0):
-            return []
+            return []                      # N-outputs needs a perfect detector
         hout = dict(s.circuit.heralds["output"])
+        if not pnr and any(n > 1 for n in hout.values()):
+            return []                      # threshold detector, multi-photon herald
+        if abs(sum(own.values()) - 1) > 1e-9:
+            return []                      # stored distribution not normalised
         n_free = s.circuit.n_modes - len(hout)
         ref = op.get("ps")
         if ref is not None and w.has("ps", ref):
